@@ -28,8 +28,6 @@ func genC08(seed uint64, run int, tier string) Scenario {
 	if sc.Net.LatMax > 2*sc.readDelay() {
 		sc.Net.LatMax = 2 * sc.readDelay()
 	}
-	// half of the runs let a read span two server messages (a late reply back to back with the next)
-	sc.Net.JoinMsgs = r.IntN(2) == 0
 	// timeouts are expected here and each costs timeout/5us poller steps: keep them short
 	sc.ReadDelayUS = int64(pick(r, 20, 50))
 	sc.ReadSize = pick(r, 256, 1024, 8192, 65535)
@@ -182,7 +180,7 @@ func init() {
 		ID: "C08",
 		Meta: Meta{
 			Level: "exploration",
-			Rule:  "each run = one NETCONF session (1.0 or 1.1, echoing or not) of 2..12 RPCs whose replies the server sends now, after 1.5..3x the client's timeout, or never (idle gaps let late replies land between calls), replies carrying unique tokens, 1.1 replies in random legal chunkings; in half of the runs a read may span two server messages; x latency x interleaving of channel reader / NETCONF reader / 5us reply poller / caller. Oracle over the history: message-ids seen by the server distinct and strictly increasing; every call returns an error or exactly the reply generated for its own request (message-id and token); a call that timed out although its complete reply had been delivered well before is a lost reply",
+			Rule:  "each run = one NETCONF session (1.0 or 1.1, echoing or not) of 2..12 RPCs whose replies the server sends now, after 1.5..3x the client's timeout, or never (idle gaps let late replies land between calls), replies carrying unique tokens, 1.1 replies in random legal chunkings; segmentation never puts bytes of two server messages in one read (the property's quantifier; C02 has the spanning reads); x latency x interleaving of channel reader / NETCONF reader / 5us reply poller / caller. Oracle over the history: message-ids seen by the server distinct and strictly increasing; every call returns an error or exactly the reply generated for its own request (message-id and token); a call that timed out although its complete reply had been delivered well before is a lost reply",
 			Components: map[string]string{
 				"real": "scrapligo netconf driver (message-id counter, read loop incl. echo stripping, message store, sendRPC poller and timer), channel",
 				"stub": "SimTransport with message boundaries, NETCONF server model with per-request behaviour, fake clock, seeded controller",
